@@ -40,7 +40,8 @@ fn tagged_shape(t: i32, call: usize, r: &mut Rng) -> Shape {
     let nparts = if gen::is_point(t) || gen::is_multipoint(t) { 1 } else { 1 + call % 2 };
     let input: Vec<(i32, Vec<[u64; 4]>)> = (0..nparts)
         .map(|p| {
-            let n = if gen::is_point(t) { 1 } else { 2 + (call + p) % 3 };
+            // the 97th call of a long history carries a record of more than 2^17 bytes (9000+ vertices)
+            let n = if gen::is_point(t) { 1 } else if call % 97 == 96 && p == 0 { 9000 + call } else { 2 + (call + p) % 3 };
             let pts = (0..n).map(|k| [f(if p == 0 && k == 0 { call as f64 } else { 1_000_000.0 + r.below(1000) as f64 }), f(r.below(50) as f64), f(k as f64), f(1.0 + k as f64)]).collect();
             (if t == 31 { 0 } else { 0 }, pts)
         })
@@ -190,6 +191,8 @@ fn judge(t: i32, word: &[u8], route: &str, out: &Outcome, read: &[(&str, Pairs)]
             "iter.step_by(2)" => want_all.iter().step_by(2).cloned().collect(),
             "iter.nth(2)" => want_all.iter().skip(2).take(1).cloned().collect(),
             "iter_as.skip(2)" => want_all.iter().skip(2).cloned().collect(),
+            "iter.last()" => want_all.iter().last().cloned().into_iter().collect(),
+            "iter.count()" => vec![(None, None); want_all.len()],
             _ => want_all.clone(),
         };
         // a reader used twice may hand out the whole file or what was left: C08 only demands that
@@ -226,7 +229,7 @@ fn write_bulk<W: std::io::Write + std::io::Seek>(w: Writer<W>, n: usize, t: i32,
 fn run_cursor(t: i32, other: i32, word: &[u8], seed: u64, case: &str, rep: &mut Report) {
     let (a, b, c) = (Dest::new(), Dest::new(), Dest::new());
     // all-success histories alternate between the per-pair call and the consuming bulk route
-    let bulk = word.iter().all(|l| *l == OK) && word.len() % 2 == 0 && !word.is_empty();
+    let bulk = word.iter().all(|l| *l == OK) && (word.len() % 2 == 0 || word.len() % 64 == 1) && !word.is_empty();
     if bulk {
         rep.count("histories_written_through_write_shapes_and_records(bulk)", 1);
     }
@@ -254,6 +257,8 @@ fn run_cursor(t: i32, other: i32, word: &[u8], seed: u64, case: &str, rep: &mut 
         let r4 = pairs_of(mk().and_then(|mut r| r.iter_shapes_and_records().step_by(2).collect::<Result<Vec<_>, Error>>()));
         let r5 = pairs_of(mk().and_then(|mut r| r.iter_shapes_and_records().nth(2).into_iter().collect::<Result<Vec<_>, Error>>()));
         let r6 = pairs_of(mk().and_then(|mut r| r.iter_shapes_and_records_as::<Shape, Record>().skip(2).collect::<Result<Vec<_>, Error>>()));
+        let r_last = pairs_of(mk().and_then(|mut r| r.iter_shapes_and_records().last().into_iter().collect::<Result<Vec<_>, Error>>()));
+        let r_count = mk().map(|mut r| r.iter_shapes_and_records().count()).map_err(|e| err_class(&e));
         // the complete reader WITHOUT index, and one reader used twice (a pair consumed through the
         // iterator, then read()): whatever comes back pairs shape i with row i
         let mkn = || -> Result<Reader<Cursor<Vec<u8>>, Cursor<Vec<u8>>>, Error> { Ok(Reader::new(ShapeReader::new(Cursor::new(out.shp.clone()))?, dbase::Reader::new(Cursor::new(out.dbf.clone()))?)) };
@@ -285,6 +290,8 @@ fn run_cursor(t: i32, other: i32, word: &[u8], seed: u64, case: &str, rep: &mut 
             ("iter.step_by(2)", r4),
             ("iter.nth(2)", r5),
             ("iter_as.skip(2)", r6),
+            ("iter.last()", r_last),
+            ("iter.count()", r_count.map(|c| vec![(None, None); c])),
             ("no-index:Reader::read", r7),
             ("no-index:iter_shapes_and_records", r8),
             ("no-index:one pair iterated, then read()", r9),
@@ -309,10 +316,13 @@ fn run_path(t: i32, other: i32, word: &[u8], seed: u64, dir: &str, case: &str, r
         _ => plain,
     };
     let base = format!("{}/{}", dir, stem);
-    let path = format!("{}.shp", base);
+    // every fourth data set is addressed as <stem>.SHP (its companions are <stem>.shx / <stem>.dbf)
+    let upper = word.len() % 4 == 3;
+    let path = format!("{}.{}", base, if upper { "SHP" } else { "shp" });
+    let bulk = word.iter().all(|l| *l == OK) && word.len() % 3 == 0 && !word.is_empty();
     let res = panicmon::catch(|| -> Result<Vec<bool>, Error> {
         let w = Writer::from_path(&path, table_builder())?;
-        Ok(write_history(w, word, t, other, seed))
+        Ok(if bulk { write_bulk(w, word.len(), t, seed) } else { write_history(w, word, t, other, seed) })
     });
     let results = match res {
         Ok(Ok(r)) => r,
@@ -320,7 +330,7 @@ fn run_path(t: i32, other: i32, word: &[u8], seed: u64, dir: &str, case: &str, r
         Err(p) => return rep.violation("panic:write", case, J::s(p.class())),
     };
     let rd = |ext: &str| std::fs::read(format!("{}.{}", base, ext)).unwrap_or_default();
-    let out = Outcome { results, shp: rd("shp"), shx: rd("shx"), dbf: rd("dbf") };
+    let out = Outcome { results, shp: rd(if upper { "SHP" } else { "shp" }), shx: rd("shx"), dbf: rd("dbf") };
     let read = panicmon::catch(|| {
         let r1 = pairs_of(Reader::from_path(&path).and_then(|mut r| r.read()));
         let r2 = pairs_of(shapefile::read(&path));
@@ -352,7 +362,7 @@ fn run_path(t: i32, other: i32, word: &[u8], seed: u64, dir: &str, case: &str, r
             let _ = std::fs::remove_file(format!("{}.{}", base2, ext));
         }
     }
-    for ext in ["shp", "shx", "dbf"] {
+    for ext in ["shp", "SHP", "shx", "dbf"] {
         let _ = std::fs::remove_file(format!("{}.{}", base, ext));
     }
     match read {
@@ -400,7 +410,7 @@ pub fn run(ctx: &Ctx) -> Report {
     }
     // longer all-success and random histories
     if !cfg!(miri) {
-        for n in [8usize, 12, 20, 40] {
+        for n in [8usize, 12, 20, 40, 65, 66, 129, 130] {
             words.push(vec![OK; n]);
         }
         // numbers of pairs straddling powers of two (caps and buffer sizes change behaviour there)
